@@ -11,8 +11,8 @@ SPEC = os.path.join(VERIF, "spec")
 HARNESS_DIR = os.path.join(VERIF, "harness")
 HARNESS = os.path.join(HARNESS_DIR, "target", "debug", "vharness")
 REPO = "/repo"
-JAVA_OPTS_TRACE = "-Xss1g -Dtlc2.tool.queue.IStateQueue=StateDeque"
-JAVA_OPTS_MC = "-Xss512m"
+JAVA_OPTS_TRACE = "-Xss1g -Dtlc2.tool.queue.IStateQueue=StateDeque -Xmx4g"   # a later -Xmx (appended by callers) wins
+JAVA_OPTS_MC = "-Xss512m -Xmx12g"
 
 
 class ToolError(Exception):
